@@ -172,12 +172,19 @@ func (s *grpcServer) maybeInline(ctx context.Context, inline bool, slice *[]byte
 			return nil // Not inlined, nothing to do.
 		}
 
+		hash := sha256.Sum256(*slice)
+		sliceHash := hex.EncodeToString(hash[:])
 		if *digest == nil {
-			hash := sha256.Sum256(*slice)
 			*digest = &pb.Digest{
-				Hash:      hex.EncodeToString(hash[:]),
+				Hash:      sliceHash,
 				SizeBytes: int64(len(*slice)),
 			}
+		} else if (*digest).Hash != sliceHash || (*digest).SizeBytes != int64(len(*slice)) {
+			// The inlined data is not what the digest refers to (results
+			// uploaded via HTTP are not checked for this). Keep the data
+			// inlined rather than dropping it in favour of another blob.
+			*inlinedSoFar += int64(len(*slice))
+			return nil
 		}
 
 		found, _ := s.cache.Contains(ctx, cache.CAS, (*digest).Hash, (*digest).SizeBytes)
